@@ -1547,3 +1547,123 @@ def placement_scenario(decl_scope, use_scope, write, rng=None):
 
 def all_placements():
     return [(d, u, w) for d in PLACES for u in PLACES for w in (True, False)]
+
+
+def cell_expected(cell):
+    """Python mirror's opinion on a cell (only used to balance the sample between accepted and rejected cells)."""
+    vt, init, m, st, step = cell
+    s = _cell_base()
+    r = walk(s, 0, False, [CELL_ATTR[st]])
+    rt = step_type(s, r, step)
+    return rt is not None and combine(decl_type(vt), m, rt, init == "SNull")
+
+
+# ----------------------------------------------------------------------------------------------- check body (C08, C09)
+def make_valid_items_p(rng, n, variants=2, threads=False):
+    import engine
+    items = []
+    for k in range(n):
+        s, b = gen_valid_p(rng, threads=threads, n_pipes=rng.choice([1, 1, 2, 2, 0]))
+        g = engine.scen_hash(s)
+        for v in range(variants):
+            r = {"spelling": ["mixed", "id", "alias", "mixed"][v % 4], "shuffle": v % 2 == 1, "descriptive": v % 3 == 2,
+                 "seed": rng.randrange(1 << 30)}
+            doc = S.render(s, random.Random(r["seed"]), r["spelling"], r["shuffle"], r["descriptive"])
+            items.append(engine.Item(s, doc, "valid", render=r, group=g))
+    return items
+
+
+def make_mutant_items_p(rng, n, owners, threads=False):
+    import engine
+    items = []
+    for k in range(n):
+        s, name, owner, desc = mutate_p(rng, only=owners, threads=threads)
+        r = {"spelling": "id" if name in M.FORCE_ID_SPELLING else "mixed", "shuffle": k % 2 == 1, "descriptive": False,
+             "seed": rng.randrange(1 << 30)}
+        doc = S.render(s, random.Random(r["seed"]), r["spelling"], r["shuffle"], r["descriptive"])
+        items.append(engine.Item(s, doc, "mutant", mutator=name, owner=owner, desc=desc, render=r, group=engine.scen_hash(s)))
+    return items
+
+
+def make_family_items(rng, kind, keys, make):
+    import engine
+    items = []
+    for k in keys:
+        s = make(k)
+        r = {"spelling": "mixed", "shuffle": False, "descriptive": False, "seed": rng.randrange(1 << 30)}
+        doc = S.render(s, random.Random(r["seed"]), r["spelling"], r["shuffle"], r["descriptive"])
+        items.append(engine.Item(s, doc, kind, mutator=None, owner=None, desc=json.dumps(k, default=str), render=r, group=engine.scen_hash(s)))
+    return items
+
+
+def run_check(ctx, owners, n_valid, n_mut, families, rule, trusted, prop_files=()):
+    """Proof step on Properties/<prop>.v (+ prop_files), then: conformant scenarios with pipelines (half with thread
+    groups, two renderings each), single-fault mutants owned by `owners`, and the systematic families."""
+    import os, re, subprocess, shutil
+    import common, kernel, engine
+    ok, thms, log = kernel.proof_step(ctx, regen=("tables",))
+    for pf in prop_files:
+        lock = ctx.coq_lock()
+        try:
+            ok2, log2 = ctx.make(["theories/Properties/%s.vo" % pf])
+        finally:
+            lock.close()
+        src_path = os.path.join(common.COQ, "theories", "Properties", pf + ".v")
+        names = re.findall(r"^\s*(?:Theorem|Corollary)\s+(\w+)", open(src_path).read(), re.M)
+        if ok2:
+            scratch = os.path.join(ctx.coq_scratch, pf + ".v")
+            shutil.copy(src_path, scratch)
+            r = subprocess.run(["timeout", "600", "coqc", "-Q", os.path.join(common.COQ, "theories"), "OIS", "-w", "-notation-overridden", scratch],
+                               capture_output=True, text=True, cwd=ctx.coq_scratch)
+            out = r.stdout + r.stderr
+            ok2 = r.returncode == 0
+            log2 = out
+            ctx.assumptions += [x.strip() for x in re.split(r"(?=Closed under the global context|Axioms:)", out) if x.strip()]
+        cov = ctx.coverage
+        cov["obligations"] = cov.get("obligations", 0) + max(1, len(names))
+        cov["discharged"] = cov.get("discharged", 0) + (len(names) if ok2 else 0)
+        cov["obligation_names"] = cov.get("obligation_names", []) + ["OIS.Properties.%s.%s" % (pf, t) for t in names]
+        thms = thms + names
+        if not ok2:
+            ok, log = False, log + log2
+    rng = random.Random(ctx.seed)
+    scale = 1 if ctx.tier == "quick" else 10
+    items = []
+    items += make_valid_items_p(rng, n_valid * scale // 2, variants=2, threads=False)
+    items += make_valid_items_p(rng, n_valid * scale - n_valid * scale // 2, variants=2, threads=True)
+    items += make_mutant_items_p(rng, n_mut * scale // 2, owners, threads=False)
+    items += make_mutant_items_p(rng, n_mut * scale - n_mut * scale // 2, owners, threads=True)
+    items += families(ctx, rng)
+    replay_file = getattr(ctx, "replay_file", None)
+    if replay_file:
+        r = json.load(open(replay_file))
+        items = [engine.Item(r["scenario"], r["document"], r.get("kind", "replay"), r.get("mutator"), r.get("owner"), r.get("fault"), r.get("render"), "replay")]
+    evaluated = engine.run_items(ctx, items, coq_file_fn=coq_cases_file_p)
+    dis, uneval = engine.report(ctx, items, "T3 correspondence: whole validator vs Coq model (Model/Rules.v + Model/PipeRules.v) on rendered scenarios with aggregation pipelines")
+    # mutants that must be accepted by both sides (regressions)
+    for it in items:
+        if it.mutator == "p_index10_accepted" and it.model_accepts is False and it.res["outcome"] != "accept":
+            ctx.notes.append("regression mutant p_index10_accepted rejected by model and implementation: %s" % it.desc)
+    raised = [it for it in items if it.res["outcome"] == "raise"]
+    st = {}
+    for it in items:
+        for pl in it.scenario.get("pipelines", []):
+            for ins in flatten(pl):
+                st[ins[0]] = st.get(ins[0], 0) + 1
+                if ins[0] == "trav" and ins[1][-1] >= 10:
+                    st["traversal index >= 10"] = st.get("traversal index >= 10", 0) + 1
+                if ins[0] == "app":
+                    k = "step:" + (ins[2]["step"][0] if ins[2]["step"] else "none")
+                    st[k] = st.get(k, 0) + 1
+    ctx.coverage.update({
+        "rule": rule, "pipeline_constructs": st,
+        "samples": engine.sample_of([it for it in items if it.kind == "valid"][:1] + [it for it in items if it.kind == "mutant"][:2]),
+        "trusted_base": trusted + [
+            "harness/pipes.py: generator of conformant pipelines on harness/scenario.py scenarios (8 variable types with every legal initial, traversal trees to depth 3 with up to 12 siblings, every step kind x method the tables allow, sources by promise path / pipeline, loop and thread variable / threaded promise inside and outside its group, nested filters, outputs incl. object types), renderer hook, single-fault mutators",
+            "Model/PipeRules.v is tied to the implementation by this differential run (bounded by the generator), not by proof about the Python"],
+        "implementation_raised": len(raised)})
+    if not evaluated and not ctx.violations:
+        kernel.obligation_violation(ctx, thms, "; ".join(ctx.notes[-3:]), {"correspondence": "Coq evaluation of scenario cases failed"})
+    if not ok and not ctx.violations:
+        kernel.obligation_violation(ctx, thms, log)
+    return items
